@@ -166,4 +166,144 @@ Proof.
   apply (rt_chunk_at_extract d (fun q => f (addv off q))). exact Hc'.
 Qed.
 
+
+(* ------------------------------------------------------------------------------------------------ *)
+(* ANY unit-step selection, empty ones included (possible since _prune_chunks always retains a chunk)  *)
+
+Definition ax_ok0 (cs : list Z) (ix : Z * Z) : Prop := 0 <= fst ix /\ fst ix <= snd ix /\ snd ix <= sumZ cs.
+Definition nonempty_pos (cs : list Z) : Prop := cs <> [] /\ posl cs.
+
+Lemma norm_index_ok0 : forall chunks index,
+  Forall posl chunks -> Forall2 ax_ok0 chunks (norm_index (chunks_shape chunks) index).
+Proof.
+  unfold chunks_shape.
+  induction chunks as [|cs chunks IH]; intros index Hp.
+  - constructor.
+  - inversion Hp; subst.
+    pose proof (sumZ_nonneg cs H1) as Hnn.
+    destruct index as [|ix index]; cbn [map norm_index] in *; constructor; auto.
+    + unfold ax_ok0; cbn [fst snd] in *. lia.
+    + unfold ax_ok0, norm_slice in *; cbn [fst snd] in *.
+      pose proof (norm_bound_range (sumZ cs) (fst ix) 0 Hnn).
+      pose proof (norm_bound_range (sumZ cs) (snd ix) (sumZ cs) Hnn).
+      lia.
+Qed.
+
+Definition ax_orig (x : list Z * (Z * Z) * Z) (cs : list Z) : Prop :=
+  forall se, In se (ax_na x) -> In (shift (snd x) se) (intervals 0 cs).
+
+Lemma pr_axis0 : forall cs ix, nonempty_pos cs -> ax_ok0 cs ix ->
+  ax_cover (prune_axis cs ix) /\ shift (snd (prune_axis cs ix)) (ax_ix (prune_axis cs ix)) = ix
+  /\ ax_orig (prune_axis cs ix) cs.
+Proof.
+  intros cs [s e] [Hne Hp] (Ha & Hb & Hc). cbn [fst snd] in *.
+  pose proof (prune_axis_intervals cs s e Hne) as K.
+  assert (Hcov : s < e -> ax_cover (prune_axis cs (s, e))).
+  { intros Hlt. apply pr_axis; [assumption | unfold ax_ok; cbn [fst snd]; lia]. }
+  destruct (prune_axis cs (s, e)) as [[cs' ix'] off'] eqn:E.
+  destruct K as [K1 [K2 K3]]. subst ix'. unfold ax_cover, ax_ix, ax_na, ax_orig in *. cbn [fst snd] in *.
+  split; [| split].
+  - intros z Hz. apply Hcov; lia.
+  - unfold shift. cbn [fst snd]. f_equal; lia.
+  - intros se Hin. apply K3. eapply needed_axis_incl; eassumption.
+Qed.
+
+Lemma pr_prune_facts0 : forall chunks nix, Forall nonempty_pos chunks -> Forall2 ax_ok0 chunks nix ->
+  Forall ax_cover (prune chunks nix) /\
+  add_offset (map ax_ix (prune chunks nix)) (map snd (prune chunks nix)) = nix /\
+  length (prune chunks nix) = length chunks /\
+  Forall2 ax_orig (prune chunks nix) chunks.
+Proof.
+  intros chunks nix Hp H. revert Hp.
+  induction H as [|cs ix chunks nix Hok H IH]; intros Hp; cbn [prune map length].
+  - repeat split; constructor.
+  - inversion Hp; subst. destruct (IH H3) as (I1 & I2 & I3 & I4).
+    destruct (pr_axis0 cs ix H2 Hok) as [P1 [P2 P3]].
+    destruct (prune_axis cs ix) as [[cs' [s' e']] off'].
+    unfold ax_ix, shift in P2. cbn [fst snd] in P2.
+    repeat split.
+    + constructor; auto.
+    + unfold ax_ix at 1. cbn [fst snd add_offset]. rewrite I2, P2. reflexivity.
+    + rewrite I3. reflexivity.
+    + constructor; auto.
+Qed.
+
+(* every needed block, shifted back, is a block of the original chunking: no chunk boundary is altered *)
+Lemma pr_needed_blocks0 : forall pr chunks, Forall2 ax_orig pr chunks ->
+  forall b', In b' (cart (map ax_na pr)) -> In (add_offset b' (map snd pr)) (blocks chunks).
+Proof.
+  induction 1 as [|x cs pr chunks Hx H IH]; intros b' Hb'.
+  - cbn in Hb'. destruct Hb' as [<- | []]. left. reflexivity.
+  - cbn [map cart] in Hb'. apply rt_in_cons_cart in Hb'. destruct Hb' as [se [q [-> [Hse Hq]]]].
+    destruct se as [a b]. cbn [map add_offset]. rewrite rt_blocks_cons. apply rt_in_cons_cart.
+    exists (a + snd x, b + snd x), (add_offset q (map snd pr)). split; [reflexivity|]. split.
+    + apply (Hx (a, b) Hse).
+    + apply IH. exact Hq.
+Qed.
+
+Lemma pruned_read_all : forall (A : Type) (d : A) (miss : option A) (st : store A) (arr : str) (dt : Z)
+    (f : list Z -> A) (chunks : list (list Z)) (index : list (option Z * option Z)),
+  (forall s1 s2, chunk_name arr s1 = chunk_name arr s2 -> s1 = s2) ->
+  Forall nonempty_pos chunks ->
+  let r := get_array_index d miss (fst (put_array st arr dt f chunks [])) arr dt chunks index in
+  snd r = Ok (map f (spec_index_points chunks index))
+  /\ forall b, In b (fst r) -> In b (blocks chunks).
+Proof.
+  intros A d miss st arr dt f chunks index Hinj Hnp.
+  assert (Hp : Forall posl chunks) by (eapply Forall_impl; [|exact Hnp]; intros a [_ Ha]; exact Ha).
+  pose proof (norm_index_ok0 chunks index Hp) as Hok.
+  unfold get_array_index, spec_index_points. cbv zeta.
+  set (nix := norm_index (chunks_shape chunks) index) in *.
+  destruct (pr_prune_facts0 chunks nix Hnp Hok) as (Hcov & Hix & Hlen & Horig).
+  pose proof (pr_needed_blocks0 _ _ Horig) as Hmem.
+  change (map (fun x => needed_axis (fst (fst x)) (snd (fst x))) (prune chunks nix))
+    with (map ax_na (prune chunks nix)).
+  change (map (fun x => snd (fst x)) (prune chunks nix)) with (map ax_ix (prune chunks nix)).
+  set (pr := prune chunks nix) in *.
+  set (off := map snd pr) in *.
+  set (needed := cart (map ax_na pr)) in *.
+  set (index' := map ax_ix pr) in *.
+  assert (Hloff : length off = length pr) by (unfold off; apply map_length).
+  assert (Hlb : forall b', In b' needed -> length b' = length off).
+  { intros b' Hb'. apply cart_length in Hb'. rewrite Hb', map_length. lia. }
+  cbn [fst snd]. split.
+  2:{ intros b Hb. apply in_map_iff in Hb. destruct Hb as [b' [<- Hb']].
+      rewrite get_slices_add by (apply Hlb; assumption). apply Hmem. exact Hb'. }
+  unfold put_array.
+  set (st' := fst (put_blocks f arr dt [] st (blocks chunks))).
+  assert (Hwf : chunks_wf chunks).
+  { eapply Forall_impl; [|exact Hp]. intros; left; auto. }
+  assert (Hgood : Forall (rt_good []) (blocks chunks)).
+  { apply Forall_forall. intros b Hb. reflexivity. }
+  assert (Hnd : NoDup (map (rt_key arr []) (blocks chunks))).
+  { apply (rt_NoDup_map_rel (rt_key arr []) (map fst)); [|apply rt_NoDup_block_starts; auto].
+    intros b1 b2 _ _ E. unfold rt_key, chunk_key in E. apply app_inv_tail in E. apply Hinj in E. exact E. }
+  assert (Hget : forall b', In b' needed ->
+            get_chunk_or miss st' arr (get_slices off b') dt
+              = Ok (slice_shape b', extract (fun q => f (addv off q)) b')).
+  { intros b' Hb'.
+    pose proof (Hlb b' Hb') as Hl.
+    rewrite get_slices_add by auto.
+    pose proof (Hmem b' Hb') as HB.
+    pose proof (rt_get_ok f arr dt [] miss st' (add_offset b' off)) as G.
+    change (get_slices [] (add_offset b' off)) with (add_offset b' off) in G.
+    rewrite G.
+    - rewrite rt_shape_add_offset by lia. unfold extract.
+      rewrite pr_region_points_add_offset by auto. rewrite map_map. reflexivity.
+    - reflexivity.
+    - reflexivity.
+    - apply rt_put_blocks_lookup; auto. }
+  rewrite (rt_fetch_ok (fun q => f (addv off q)) arr dt off miss st' needed Hget).
+  f_equal.
+  assert (E : region_points nix = map (addv off) (region_points index')).
+  { rewrite <- Hix. apply pr_region_points_add_offset. unfold index'. rewrite map_length. lia. }
+  rewrite E, map_map. apply map_ext_in. intros q Hq.
+  destruct (pr_cover_cart ax_na ax_ix pr Hcov q Hq) as [b [Hb Hc]].
+  destruct (rt_find_blocks (fun b => (slice_shape b, extract (fun q => f (addv off q)) b)) q needed)
+    as [b' [Hc' Hf]]; [exists b; auto|].
+  unfold read_point. rewrite Hf.
+  apply (rt_chunk_at_extract d (fun q => f (addv off q))). exact Hc'.
+Qed.
+
 Print Assumptions pruned_read.
+Print Assumptions pruned_read_all.
